@@ -16,6 +16,7 @@ from vf.common import Report
 from vf.gen import config as GC
 from vf.gen import ghe as GG
 from vf.gen import loads as GL
+from vf.gen import phys as GP
 from vf.pool import run_pool
 from vf.props import pool_common as PC
 
@@ -65,7 +66,72 @@ def run_shard(spec):
         from vf.props import scripted as SC
 
         return SC.run_batch(spec)
+    if spec.get("part") == "entry-points":
+        return entry_points(spec)
     return verify_policy(spec)
+
+
+def entry_points(spec):
+    """The other ways into a design run: the command-line worker on a written input file, and find_design(throw=False) followed by
+    prepare_results().  Same clause: a design, or a ValueError - nothing else."""
+    import contextlib
+    import io
+    import json
+    import shutil
+    import tempfile
+    import traceback
+    from pathlib import Path
+
+    import ghedesigner.manager as M
+
+    from vf.common import TMP, rng
+
+    g = rng(spec["seed"], PROP + "-entry", spec["shard"])
+    res = {"kind": "entry-points", "runs": 0, "viol": [], "outcomes": {}, "cases": []}
+    work = Path(tempfile.mkdtemp(prefix="c02_", dir=str(TMP)))
+    try:
+        for i in range(spec["n"]):
+            k = spec["shard"] * spec["n"] + i
+            method = ["NEARSQUARE", "RECTANGLE", "BIRECTANGLE", "BIZONEDRECTANGLE", "BIRECTANGLECONSTRAINED"][k % 5]
+            klass = ["huge", "tiny", "interior", "huge"][k % 4]
+            flag = bool((k // 4) % 2)
+            cfg = PC.make_cfg(g, method, GP.PIPES[k % 4], ["BOREHOLE", "SYSTEM"][k % 2], klass, flag, 36)
+            cfg["simulation"]["num_months"] = 12
+            cfg["loads_desc"]["scale"] = PC.scale_loads_for(cfg, klass, g)
+            loads = GL.make_loads(cfg["loads_desc"])
+            case = {"scenario": cfg, "class": klass, "flag": flag}
+            sink = io.StringIO()
+            for entry in ("cli-worker", "api-throw-false"):
+                outcome = None
+                try:
+                    with warnings.catch_warnings():
+                        warnings.simplefilter("ignore")
+                        with contextlib.redirect_stdout(sink), contextlib.redirect_stderr(sink):
+                            if entry == "cli-worker":
+                                f = work / f"in_{k}.json"
+                                f.write_text(json.dumps(GC.to_input_dict(cfg, loads)))
+                                rc = M._run_manager_from_cli_worker(f, work / f"out_{k}")
+                                outcome = f"returned-{rc}"
+                            else:
+                                m = GC.build_manager(cfg, loads=loads)
+                                rc = m.find_design(throw=False)
+                                if rc in (0, None):
+                                    m.prepare_results("verif", "n", "a", "i")
+                                outcome = f"returned-{rc}"
+                except ValueError:
+                    outcome = "ValueError"
+                except Exception as e:  # noqa: BLE001
+                    tb = traceback.extract_tb(e.__traceback__)
+                    where = [f"{fr.name}:{fr.lineno}" for fr in tb if "ghedesigner" in fr.filename][-3:]
+                    outcome = "exception:" + type(e).__name__
+                    res["viol"].append({"mechanism": f"non-ValueError-escapes:{type(e).__name__}:{entry}", "message": f"{method} ({klass} loads, continue flag {flag}) through {entry}: {type(e).__name__}: {str(e)[:120]} at {where}", "case": {**case, "entry": entry}})
+                res["runs"] += 1
+                res["outcomes"][entry + ":" + outcome] = res["outcomes"].get(entry + ":" + outcome, 0) + 1
+            res["cases"].append([method, klass, flag, cfg["loads_desc"]["seed"]])
+            shutil.rmtree(work / f"out_{k}", ignore_errors=True)
+    finally:
+        shutil.rmtree(work, ignore_errors=True)
+    return res
 
 
 def verify_policy(spec):
@@ -125,7 +191,8 @@ def check(tier, seed):
         "scenario pool as C01 with load magnitudes from far below to far beyond the land's capacity, caps from a few boreholes to beyond the "
         "largest field, continue flag both ways, height windows 1..300 m wide; non-degenerate inputs by construction (spacing windows hold an "
         "integer count, >= 3 rows at max spacing, ground temperature >= 5 K inside the limits, RowWise lots wider than 1.3 x the largest spacing). "
-        "non-trivial = distinct (outcome class, method) pair; outcome classes: bracketed, clamped-min, clamped-max, unmet-small, unmet-large, ValueError."
+        "Entry points: the same clause through the command-line worker on a written input file and through find_design(throw=False) + prepare_results() "
+        "(small 12-month scenarios, loads tiny / interior / huge, flag both ways). non-trivial = distinct (outcome class, method) pair; outcome classes: bracketed, clamped-min, clamped-max, unmet-small, unmet-large, ValueError."
     )
     for p in problems:
         rep.inconclusive.append("scenario failed in the harness: " + p)
@@ -252,6 +319,23 @@ def check(tier, seed):
                 rep.violate(f"error-not-justified-by-independent-evaluation:{PC.method_of(rec)}",
                             f"run failed as {e2} but the harness's own evaluation gives {ex}", {"scenario": rec["cfg"], "own": ex})
     rep.extra["outcome_classes"] = classes
+    # other entry points: command-line worker and find_design(throw=False) + prepare_results()
+    n_ep = {"quick": 1, "thorough": 6}[tier]
+    ep_out = {}
+    for r in run_pool("vf.props.C02", [{"part": "entry-points", "seed": seed, "shard": s_, "n": n_ep} for s_ in range(16)], timeout=5400):
+        if "_harness_error" in r:
+            rep.inconclusive.append("entry-point shard failed: " + r["_harness_error"][:300])
+            continue
+        rep.evaluations += r["runs"]
+        for k_, v_ in r["outcomes"].items():
+            ep_out[k_] = ep_out.get(k_, 0) + v_
+        for c in r["cases"]:
+            rep.nontrivial(["entry-points"] + c)
+        for v in r["viol"]:
+            rep.violate(v["mechanism"], v["message"], {"case": v["case"]})
+    rep.extra["entry_point_outcomes"] = ep_out
+    if not any(k_.endswith("ValueError") for k_ in ep_out) or not any("returned-0" in k_ for k_ in ep_out):
+        rep.inconclusive.append(f"entry-point lane did not see both a design and a ValueError: {ep_out}")
     if classes.get("ValueError", 0) == 0:
         rep.inconclusive.append("no ValueError outcome observed")
     if rep.extra.get("ValueError_too-small", 0) == 0 or rep.extra.get("ValueError_too-large", 0) == 0:
